@@ -361,6 +361,12 @@ impl World {
             return Err(self.viol("C04", "C04.panic", format!("liveness evaluation panicked on n{p}: {pm}")));
         }
         let (_, after) = self.refresh_view(p);
+        // C05: a liveness evaluation touches neither the node's own key-values nor its heartbeat
+        if self.en.contains("C05") {
+            if before.get(&me) != after.get(&me) {
+                return Err(self.viol("C05", "C05.own_state_changed_by_evaluation", format!("n{p} own state or heartbeat changed during a liveness evaluation")));
+            }
+        }
         let node = self.nodes[p].as_mut().unwrap();
         let live: HashSet<Id> = node.chit.live_nodes().map(Id::from_real).collect();
         let dead: HashSet<Id> = node.chit.dead_nodes().map(Id::from_real).collect();
